@@ -1,0 +1,5 @@
+//go:build !verif
+
+package workerpool
+
+func verifSubmitWindow(*WorkerPool) {}
